@@ -212,6 +212,7 @@ def cmd_check(args):
 
 
 C20_PROFILES = ["paths", "finders", "derived", "algebra"]
+C20_PROFILES_THOROUGH = C20_PROFILES + ["last", "crud", "getter", "values"]   # the other config-generic claimed profiles
 
 
 def cmd_check_c20(args):
@@ -257,7 +258,7 @@ def cmd_check_c20(args):
             try:
                 pool = O.Pool(args.repo, workers, conf_src=pkg, req_timeout=cfg.get("req_timeout", 600))
                 vres = []
-                for pname in C20_PROFILES:
+                for pname in (C20_PROFILES_THOROUGH if (tier == "thorough" or args.all_profiles) else C20_PROFILES):
                     seeds = O.run_seeds(base_seed, "C20-%s-%d" % (pname, v), cfg["runs_per_profile"])
                     vbad = []
                     r = O.batch(pool, pname, seeds, tier, max(20.0, budget / max(1, len(variants))), stop_on_violation=args.mutant_mode,
@@ -333,7 +334,8 @@ def cmd_check_c20(args):
                 if x.get("cases"):
                     x["cases"] = ["%s:%s" % (x.get("variant"), c) for c in x["cases"]]
             write_evidence(prop, P, tier, base_seed, results, wall, n_viol,
-                           {"variants": per_variant, "variants_run": len(per_variant), "profiles_per_variant": C20_PROFILES})
+                           {"variants": per_variant, "variants_run": len(per_variant),
+                            "profiles_per_variant": C20_PROFILES_THOROUGH if (tier == "thorough" or args.all_profiles) else C20_PROFILES})
         if n_viol and rc == 0:
             rc = 1
         print("C20 %s: %d variants, %d runs, %d violating groups, %.1fs" % (tier, len(per_variant),
@@ -410,6 +412,7 @@ def main(argv=None):
     c.add_argument("--stop-first", action="store_true")
     c.add_argument("--no-sweep", action="store_true")
     c.add_argument("--variant", type=int, help="C20: run this configuration variant only")
+    c.add_argument("--all-profiles", action="store_true", help="C20: also run last, crud, getter, values per variant (thorough does)")
     c.add_argument("--mutant-mode", action="store_true", help="scratch copy under test: no evidence, no replay files, stop at the first violation")
     r = sub.add_parser("replay")
     r.add_argument("file")
